@@ -2,5 +2,6 @@ package main
 
 func init() {
 	mirror("tlog.storedhashindex", "tlog.splitstoredhashindex", "tlog.storedhashcount", "tlog.treehash",
-		"tlog.proverecord", "tlog.provetree", "tlog.checkrecord", "tlog.checktree")
+		"tlog.proverecord", "tlog.provetree", "tlog.checkrecord", "tlog.checktree",
+		"tlog.formattree", "tlog.parsetree", "tlog.formatrecord", "tlog.parserecord")
 }
